@@ -184,7 +184,7 @@ def _we_corr(env: Env, out: Outcome, n: int) -> None:
         out.divergences.append(d)
 
 
-def _resume_runs(env: Env, out: Outcome, n: int, extra: list[dict]) -> None:
+def _resume_runs(env: Env, out: Outcome, n: int, extra: list[dict], n_multi: int = 0) -> None:
     """run a wait workflow, snapshot (ctx.to_dict -> JSON) at a scheduler-chosen quiet point and stop; resume a fresh
     workflow from the snapshot, deliver the remaining responses; monitor the resumed run"""
     rng = random.Random(env.rng.randrange(1 << 30))
@@ -200,6 +200,12 @@ def _resume_runs(env: Env, out: Outcome, n: int, extra: list[dict]) -> None:
         spec = specgen.gen_wait_spec(rng)
         spec["externals"] = [e for e in spec["externals"] if e["op"] != "snapshot"]
         spec["externals"].append({"op": "snapshot_stop", "after_quiet": rng.choice([0, 0, 1, 1, 2, 3])})
+        jobs.append((spec, rng.randrange(1 << 30), None, None))
+    for _ in range(n_multi):
+        # several default-id waits of one step that differ in the requirement value, snapshot somewhere in between
+        spec = specgen.gen_wait_multi_spec(rng)
+        spec["externals"] = [e for e in spec["externals"] if e["op"] != "snapshot"]
+        spec["externals"].append({"op": "snapshot_stop", "after_quiet": rng.choice([0, 1, 1, 2, 2, 3])})
         jobs.append((spec, rng.randrange(1 << 30), None, None))
     resumed: list = []
     for spec, seed, a1, a2 in jobs:
@@ -240,11 +246,21 @@ def _resume_runs(env: Env, out: Outcome, n: int, extra: list[dict]) -> None:
                 out.violations.append(Violation("C10/waiter_not_repinged_on_resume",
                                                 f"waiters that lost their requirements in the snapshot: {need}; the resumed run first reduced re-pings for {got} only: "
                                                 f"the others stay registered with requirements={{}} and accept any event of the awaited type", case))
-        for v in monitors.mon_c10(tr2, earlier_users=monitors.c10_waiter_users(tr1)):
+        vs2 = monitors.mon_c10(tr2, earlier_users=monitors.c10_waiter_users(tr1))
+        doubled: set = set()
+        for v in vs2:
             v.replay = case
             if v.signature == "C10/resumed_more_than_once" and any(f"'{nm}'" in v.what and f"'{wid}'" in v.what for nm, wid in rehydrated if (nm, wid) in rehydrated):
                 # the waiter lost its requirements in the snapshot: the step is re-pinged on resume, and an event that
                 # resolves the waiter before that replay has run queues a second replay (same root as F30)
+                v.signature = "C10/rehydration_window_double_replay"
+                m = getattr(v, "meta", None)
+                if m:
+                    doubled.add((m["step"], m["uid"]))
+        for v in vs2:
+            m = getattr(v, "meta", None)
+            if v.signature == "C10/waiter_event_not_once:per_wait:repeated" and m and (m["step"], m["uid"]) in doubled:
+                # the surplus replay of that invocation runs its body again: waits it had finished are registered (and announced) anew
                 v.signature = "C10/rehydration_window_double_replay"
             out.violations.append(v)
         # a waiter whose timeout had fired before the snapshot must still raise after resume
@@ -286,7 +302,7 @@ def run(env: Env) -> Outcome:
     suite.direct_corr(env, out, env.budget(1500, 30000))
     suite.live_runs(env, out, env.budget(50, 1000), [monitors.mon_c10])
     suite.live_runs(env, out, env.budget(250, 5000), [monitors.mon_c10], gen_kwargs={"family": "wait"})
-    _resume_runs(env, out, env.budget(120, 2400), corpus)
+    _resume_runs(env, out, env.budget(120, 2400), corpus, n_multi=env.budget(40, 800))
     # waiting steps with a retry policy that fail before / after their wait (the replay continues the retried invocation);
     # last, so that the streams above are what they were before this family existed
     suite.live_runs(env, out, env.budget(80, 1600), [monitors.mon_c10], gen_kwargs={"family": "wait_retry"})
